@@ -107,3 +107,77 @@ Example ex_kleene_definite :
     (CInter (CSet (LKind (MEqual [108;105;98] true))) (CNot (CSet (LTest (MContains [97] true)))))
     (mkbq 0 [] [] [98;105;110] PTarget) = Some false.
 Proof. vm_compute. reflexivity. Qed.
+
+(* ---- additions: an independent specification ------------------------------------------------
+   [denote] above shares with the evaluator the two definitions a slip would hide in: the matcher
+   test [matcher_match] and the argument order of the [w_depends_on] oracle.  [spec_member]
+   (Model/Filterset.v, end) is written from site/src/docs/filtersets/reference.md alone:
+   equality is [=], contains is "some text before ++ pattern ++ some text after", deps / rdeps are
+   stated over the reflexive-transitive closure of a direct-dependency relation [direct] (deps(m):
+   the test's crate is a matching crate or one of its possibly transitive dependencies; rdeps(m):
+   the test's crate is a matching crate or possibly transitively depends on one).  Only the two
+   external engines and the workspace package list are shared.  The oracle table is tied to the
+   graph by the explicit hypothesis [graph_ok]: on workspace packages, depends_on a b = true iff
+   a = b or a reaches b along [direct].  [query_ok]: the test's package is a workspace package. *)
+From Coq Require Import Relations.Relation_Operators.
+
+Theorem C05_eval_is_documented_set :
+  forall direct E W dt e q,
+    graph_ok direct W -> query_ok W q ->
+    (eval_test E dt (compile E W e) q = true <-> spec_member direct E W dt e q).
+Proof. exact eval_is_documented_set. Qed.
+Print Assumptions C05_eval_is_documented_set.
+
+(* the matcher kinds read independently: `=` is equality of the whole name, `~` is containment *)
+Theorem C05_matchers_documented :
+  forall E m s, matcher_match E m s = true <->
+    match m with
+    | MEqual x _ => s = x
+    | MContains x _ => exists before after, s = before ++ x ++ after
+    | MGlob g _ => glob_match E g s = true
+    | MRegex r => regex_match E r s = true
+    end.
+Proof. exact matcher_match_doc. Qed.
+Print Assumptions C05_matchers_documented.
+
+(* The orientation, pinned on a graph a reader can check against the documentation: packages
+   a -> b -> c (a depends on b, b depends on c).  IN THE SPECIFICATION deps(=b) is the tests of
+   {b, c} and rdeps(=b) the tests of {a, b}; guppy's table for this graph satisfies [graph_ok],
+   the same table with its arguments swapped does not; and the model evaluates accordingly. *)
+Example C05_chain_spec_deps : forall E dt p,
+  spec_member chain_direct E chain_world dt deps_b (chain_q p) <-> p = 1 \/ p = 2.
+Proof. exact chain_spec_deps. Qed.
+
+Example C05_chain_spec_rdeps : forall E dt p,
+  spec_member chain_direct E chain_world dt rdeps_b (chain_q p) <-> p = 0 \/ p = 1.
+Proof. exact chain_spec_rdeps. Qed.
+
+Example C05_chain_graph_ok :
+  graph_ok chain_direct chain_world /\ ~ graph_ok chain_direct chain_world_swapped.
+Proof. split; [exact chain_graph_ok|exact chain_swapped_not_ok]. Qed.
+
+Definition no_engine : engines := mkengines (fun _ _ => false) (fun _ _ => false).
+
+Example C05_chain_model_agrees :
+  map (fun p => eval_test no_engine (fun _ => true) (compile no_engine chain_world deps_b) (chain_q p))
+      [0; 1; 2] = [false; true; true]
+  /\ map (fun p => eval_test no_engine (fun _ => true) (compile no_engine chain_world rdeps_b) (chain_q p))
+         [0; 1; 2] = [true; true; false]
+  (* with the swapped table the evaluator gives the mirror image, which the specification
+     (C05_chain_spec_deps) contradicts: the theorem's hypothesis is what excludes it *)
+  /\ map (fun p => eval_test no_engine (fun _ => true) (compile no_engine chain_world_swapped deps_b) (chain_q p))
+         [0; 1; 2] = [true; true; false].
+Proof. repeat split; vm_compute; reflexivity. Qed.
+
+(* equality vs contains on the name "xaby": test(=ab) no, test(~ab) yes, test(=xaby) yes *)
+Example C05_equal_vs_contains :
+  let q : tquery := (mkbq 0 [] [] [] PTarget, [120; 97; 98; 121]) in
+  ~ spec_member chain_direct no_engine chain_world (fun _ => true) (PSet (STest (MEqual [97; 98] false))) q
+  /\ spec_member chain_direct no_engine chain_world (fun _ => true) (PSet (STest (MContains [97; 98] false))) q
+  /\ spec_member chain_direct no_engine chain_world (fun _ => true) (PSet (STest (MEqual [120; 97; 98; 121] false))) q
+  /\ eval_test no_engine (fun _ => true) (compile no_engine chain_world (PSet (STest (MEqual [97; 98] false)))) q = false
+  /\ eval_test no_engine (fun _ => true) (compile no_engine chain_world (PSet (STest (MContains [97; 98] false)))) q = true.
+Proof.
+  cbn. repeat split; try discriminate.
+  exists [120], [121]. reflexivity.
+Qed.
